@@ -307,8 +307,57 @@ def sequence(ctx, si, payload):
                     ctx.violation("reproducible", f"{spec}, seed {payload['seed']}: the same seeded run gives a different table after other configurations were run in the same process: {d}", {"spec": list(map(str, spec)), "sequence": [list(map(str, s_)) for s_ in specs]})
 
 
+def scan(ctx, si, payload):
+    """One configuration object edited by attribute assignment between runs (a parameter scan in one
+    session): after every edit the seeded run on the edited object equals, bit for bit, the run on a
+    configuration freshly constructed with the same values (nothing derived from an earlier value may
+    survive on the object)."""
+    from nuspacesim.config import Simulation
+
+    inject.require_safe()
+    cfg = make_cfg(tuple(payload["spec"]))
+    edits = [
+        ("detector.optical.quantum_efficiency", 0.4),
+        ("detector.optical.telescope_effective_area", 5.0),
+        ("simulation.spectrum.log_nu_energy", 9.5),
+        ("detector.radio.snr_threshold", 0.01),
+        ("detector.optical.photo_electron_threshold", 3.0),
+        ("simulation.max_cherenkov_angle", 0.1),
+        ("detector.radio.nantennas", 20),
+        ("simulation.tau_shower.etau_frac", 0.3),
+        ("detector.initial_position.latitude", -0.9),
+        ("simulation.angle_from_limb", 0.05),
+        ("simulation.cloud_model", Simulation.MonoCloud(altitude=2.5)),
+        ("detector.radio.high_frequency", 500.0),
+        ("simulation.tau_shower.table_version", "2"),
+    ][: payload["nedits"]]
+    run_one(cfg, payload["seed"], "synchronous")  # the object has been used once before the first edit
+    for k, (path, val) in enumerate(edits):
+        obj = cfg
+        parts = path.split(".")
+        for a in parts[:-1]:
+            obj = getattr(obj, a)
+        if not hasattr(obj, parts[-1]):
+            continue
+        setattr(obj, parts[-1], val)
+        used, ulog = run_one(cfg, payload["seed"], "synchronous")
+        fresh_cfg = core.validated(cfg, f"C14 scan step {k} ({path})")
+        fresh, flog = run_one(fresh_cfg, payload["seed"], "synchronous")
+        ctx.count("config-scan", max(len(fresh) if fresh is not None else 0, 1))
+        ctx.distinct.add(("scan", path))
+        wit = {"spec": list(map(str, payload["spec"])), "step": k, "edit": f"{path} = {val!r}", "earlier_edits": [e[0] for e in edits[:k]]}
+        if ulog.exception is not None or flog.exception is not None:
+            ctx.exception("reproducible", f"compute() raised at step {k} of a scan over one configuration object ({path} = {val!r})", ulog.exception or flog.exception, wit)
+            continue
+        d = diff_tables(fresh, used)
+        if d:
+            ctx.violation("reproducible", f"step {k} of a scan over one configuration object: after `{path} = {val!r}` the run on the edited object differs from the run on a freshly constructed configuration with the same values: {d}", wit)
+
+
 def entry(ctx, si, payload):
-    if payload["kind"] == "sequence":
+    if payload["kind"] == "scan":
+        scan(ctx, si, payload)
+    elif payload["kind"] == "sequence":
         sequence(ctx, si, payload)
     elif payload["kind"] == "runs":
         shard(ctx, si, payload)
@@ -345,10 +394,12 @@ def run(ctx):
                 scs.append(f"adversarial:{sd * 7 + i}")
             P.append({"kind": "runs", "runs": [(sp, sd)], "schedulers": scs})
     P.append({"kind": "empty"})
+    P.append({"kind": "scan", "seed": 31 + ctx.seed, "spec": ("Diffuse", "mono", None, 525.0, 150), "nedits": 7 if not T else 13})
+    P.append({"kind": "scan", "seed": 32 + ctx.seed, "spec": ("Target", "mono", None, 525.0, 2500), "nedits": 5 if not T else 13})
     P.append({"kind": "sequence", "seed": 21 + ctx.seed, "specs": [("Diffuse", "mono", "map", 525.0, 150), ("Diffuse", "power", "mono", 33.0, 150), ("Target", "mono", "map", 2000.0, 2500), ("Diffuse", "mono", None, 2000.0, 150)]})
     P.append({"kind": "sequence", "seed": 22 + ctx.seed, "specs": [("Target", "power", None, 525.0, 2500), ("Target", "mono", "mono", 33.0, 2500), ("Diffuse", "power1", "map", 1000.0, 150)]})
     core.run_shards(ctx, "nssmon.checks.c14", "entry", P, workers=16, timeout=ctx.pick(1500, 7000))
-    for m in ("reproducible", "plots", "isolation", "structure", "empty", "sequence"):
+    for m in ("reproducible", "config-scan", "plots", "isolation", "structure", "empty", "sequence"):
         ctx.require(m)
     return ctx.finish(
         rule="configurations from the cross product {Diffuse, Target} x {mono, power-law (also index 1)} x {no cloud, uniform cloud, pressure map} x altitudes {33, 525, 2000} km (quick: a covering subset of 12; thorough: all 36) x seeds; each: synchronous reference, threads-8 with small partitions, processes-2 or an adversarial executor, a repeated synchronous run, radio-off and optical-off runs; plus zero-survivor runs (N = 0 in both modes, a never-occulted target, a single dropped event) in all channel variants; a case is a distinct (configuration, seed, scheduler / variant)",
